@@ -149,8 +149,15 @@ func transactOnConn(ctx context.Context, conn *sql.DB, b beginnable, fn func(con
 		return
 	}
 
+	// fn 正常返回才置为 true：go.mod 声明 go 1.19，panic(nil)（如重新抛出一个恰好为 nil 的
+	// error 变量）时 recover() 返回 nil，单看 recover 的返回值会把它当成正常结束而提交事务
+	completed := false
 	defer func() {
-		if p := recover(); p != nil {
+		p := recover()
+		if p == nil && !completed {
+			p = "panic(nil)"
+		}
+		if p != nil {
 			// 函数 panic：回滚事务，并把 panic 转为错误返回给调用方
 			if e := tx.Rollback(); e != nil {
 				err = fmt.Errorf("从 panic 中恢复：%#v，回滚失败：%w", p, e)
@@ -166,5 +173,7 @@ func transactOnConn(ctx context.Context, conn *sql.DB, b beginnable, fn func(con
 		}
 	}()
 
-	return fn(ctx, tx)
+	err = fn(ctx, tx)
+	completed = true
+	return err
 }
